@@ -8,7 +8,7 @@
 (***************************************************************************)
 EXTENDS JsonModel
 
-ReBlank == [k |-> "eps", c |-> 0, set |-> <<>>, xs |-> <<>>]
+ReBlank == [k |-> "eps", c |-> 0, set |-> <<>>, xs |-> <<>>, lo |-> 0, hi |-> 0]
 RChr(c)   == [ReBlank EXCEPT !.k = "chr", !.c = c]
 RAny      == [ReBlank EXCEPT !.k = "any"]
 RCls(set) == [ReBlank EXCEPT !.k = "cls", !.set = set]      \* set: sequence of <<lo, hi>> ranges
@@ -19,6 +19,7 @@ RStar(r)  == [ReBlank EXCEPT !.k = "star", !.xs = <<r>>]
 RPlus(r)  == [ReBlank EXCEPT !.k = "plus", !.xs = <<r>>]
 ROpt(r)   == [ReBlank EXCEPT !.k = "opt", !.xs = <<r>>]
 RGrp(r)   == [ReBlank EXCEPT !.k = "grp", !.xs = <<r>>]
+RRep(r, lo, hi) == [ReBlank EXCEPT !.k = "rep", !.xs = <<r>>, !.lo = lo, !.hi = hi]      \* r{lo,hi}; hi = -1: unbounded
 RBol      == [ReBlank EXCEPT !.k = "bol"]
 REol      == [ReBlank EXCEPT !.k = "eol"]
 REps      == ReBlank
@@ -42,6 +43,11 @@ M(r, s, i, j) ==
                        ELSE \E m \in i..j : M(r.xs[1], s, i, m) /\ M(RCat(Tail(r.xs)), s, m, j)
     [] r.k = "opt"  -> i = j \/ M(r.xs[1], s, i, j)
     [] r.k = "star" -> i = j \/ \E m \in (i + 1)..j : M(r.xs[1], s, i, m) /\ M(r, s, m, j)
+    [] r.k = "rep"  -> IF r.hi = 0 THEN i = j
+                       ELSE \/ r.lo = 0 /\ i = j
+                            \/ r.lo > 0 /\ i = j /\ M(r.xs[1], s, i, i)
+                            \/ \E m \in (i + 1)..j : M(r.xs[1], s, i, m)
+                                  /\ M(RRep(r.xs[1], IF r.lo > 0 THEN r.lo - 1 ELSE 0, IF r.hi < 0 THEN r.hi ELSE r.hi - 1), s, m, j)
     [] r.k = "plus" -> \E m \in i..j : M(r.xs[1], s, i, m) /\ M(RStar(r.xs[1]), s, m, j)
 
 ReMatch(r, s)  == M(r, s, 0, Len(s))
@@ -87,9 +93,28 @@ ParseAtomRe(p, i) ==
     [] c = 92 -> IF At(p, i + 1) \in MetaChars THEN PR(TRUE, RChr(p[i + 1]), i + 2) ELSE PR(FALSE, REps, i)
     [] c \in ParseMeta -> PR(FALSE, REps, i)
     [] OTHER -> PR(TRUE, RChr(c), i + 1)
+RECURSIVE ScanNum(_, _)
+ScanNum(p, i) == IF At(p, i) >= 48 /\ At(p, i) <= 57 THEN ScanNum(p, i + 1) ELSE i
+RECURSIVE NumVal(_)
+NumVal(d) == IF d = <<>> THEN 0 ELSE 10 * NumVal(SubSeq(d, 1, Len(d) - 1)) + (d[Len(d)] - 48)
+\* counted quantifier at position i (which holds "{"): result [ok, lo, hi, i]
+ParseCount(p, i) ==
+  LET j == ScanNum(p, i + 1)
+      lo == NumVal(SubSeq(p, i + 1, j - 1))
+  IN IF j = i + 1 \/ j - i > 6 THEN [ok |-> FALSE, lo |-> 0, hi |-> 0, i |-> i]
+     ELSE IF At(p, j) = 125 THEN [ok |-> TRUE, lo |-> lo, hi |-> lo, i |-> j + 1]
+     ELSE IF At(p, j) = 44 THEN
+       LET k == ScanNum(p, j + 1) IN
+       IF At(p, k) # 125 \/ k - j > 6 THEN [ok |-> FALSE, lo |-> 0, hi |-> 0, i |-> i]
+       ELSE IF k = j + 1 THEN [ok |-> TRUE, lo |-> lo, hi |-> 0 - 1, i |-> k + 1]
+       ELSE LET hi == NumVal(SubSeq(p, j + 1, k - 1)) IN [ok |-> hi >= lo, lo |-> lo, hi |-> hi, i |-> k + 1]
+     ELSE [ok |-> FALSE, lo |-> 0, hi |-> 0, i |-> i]
 ParseQuantRe(p, i) ==
   LET a == ParseAtomRe(p, i) IN
   IF ~a.ok THEN a
+  ELSE IF At(p, a.i) = 123 THEN
+       LET c == ParseCount(p, a.i) IN
+       IF c.ok /\ At(p, c.i) \notin Quantifiers \cup {123} THEN PR(TRUE, RRep(a.r, c.lo, c.hi), c.i) ELSE PR(FALSE, REps, i)
   ELSE LET q == At(p, a.i) IN
        IF q \in Quantifiers
        THEN IF At(p, a.i + 1) \in Quantifiers THEN PR(FALSE, REps, i)     \* a** is outside I-Regexp
@@ -114,6 +139,8 @@ ParseRe(p) == IF \E i \in 1..Len(p) : p[i] \in {94, 36} /\ ~(i > 1 /\ p[i - 1] =
 (* ---------- rendering ---------------------------------------------------- *)
 RenderCh(c) == IF c \in MetaChars THEN <<92, c>> ELSE <<c>>
 RenderRange(p) == IF p[1] = p[2] THEN RenderCh(p[1]) ELSE RenderCh(p[1]) \o <<45>> \o RenderCh(p[2])
+RECURSIVE DecDigitsRe(_)
+DecDigitsRe(n) == IF n < 10 THEN <<48 + n>> ELSE Append(DecDigitsRe(n \div 10), 48 + (n % 10))
 RECURSIVE RenderRe(_)
 RenderRe(r) ==
   CASE r.k = "eps"  -> <<>>
@@ -132,13 +159,15 @@ RenderRe(r) ==
     [] r.k = "opt"  -> RenderRe(r.xs[1]) \o <<63>>
     [] r.k = "star" -> RenderRe(r.xs[1]) \o <<42>>
     [] r.k = "plus" -> RenderRe(r.xs[1]) \o <<43>>
+    [] r.k = "rep"  -> RenderRe(r.xs[1]) \o <<123>> \o DecDigitsRe(r.lo)
+                       \o (IF r.hi = r.lo THEN <<>> ELSE <<44>> \o (IF r.hi < 0 THEN <<>> ELSE DecDigitsRe(r.hi))) \o <<125>>
 
 \* precedence discipline so that the rendering re-parses to the same tree:
 \* quantifier operands are atoms (chr/any/cls/ncls/grp); cat operands are not alt/cat; alt operands are not alt
 IsAtomRe(r) == r.k \in {"chr", "any", "cls", "ncls", "grp"}
 RECURSIVE ReShapeOK(_)
 ReShapeOK(r) ==
-  CASE r.k \in {"star", "plus", "opt"} -> IsAtomRe(r.xs[1]) /\ ReShapeOK(r.xs[1])
+  CASE r.k \in {"star", "plus", "opt", "rep"} -> IsAtomRe(r.xs[1]) /\ ReShapeOK(r.xs[1])
     [] r.k = "grp" -> ReShapeOK(r.xs[1])
     [] r.k = "cat" -> Len(r.xs) >= 2 /\ \A i \in 1..Len(r.xs) : r.xs[i].k \notin {"alt", "cat", "eps"} /\ ReShapeOK(r.xs[i])
     [] r.k = "alt" -> Len(r.xs) >= 2 /\ \A i \in 1..Len(r.xs) : r.xs[i].k # "alt" /\ ReShapeOK(r.xs[i])
